@@ -11,7 +11,8 @@ def main():
     prop, spec_path, out_path = sys.argv[1:4]
     spec = json.load(open(spec_path))
     faulthandler.enable()
-    sys.setrecursionlimit(20000)
+    # the interpreter's default recursion limit is kept: code under test that recurses per logic level must fail here
+    # as it would for a user (oracles in vt/ are iterative)
     from vt import monitor
     from vt.ctx import Ctx
     ctx = Ctx(prop, spec)
